@@ -1,17 +1,180 @@
-//! scratch measurement (to be replaced)
-use verif_harness::d3gen::*;
-use std::time::Instant;
-fn main() {
-    let t0 = Instant::now();
-    for n in 6..=8 {
-        let cl = classes(2, n);
-        let mut cnt = 0;
-        for t in &cl { cnt += euclidean_2d(t, 6).len(); }
-        eprintln!("2D n={} sets={} euclid={} t={:?}", n, cl.len(), cnt, t0.elapsed());
+//! C17 — 3D euclidicity verdicts are total, invariant and never contradictory.
+//!
+//! Drives the public `euclidicity::is_euclidean`, `delaney3d::{orbifold_graph,
+//! pseudo_toroidal_cover}` and `covers::covers` (the latter only to construct inputs).
+//!
+//!   euc         IN deep rep sym                 OUT class reason [0 | 1 cover]  | PANIC
+//!                                               (class yes/no/maybe; reason = message with `_`
+//!                                               for spaces, `-` for yes; on yes the result of the
+//!                                               public pseudo_toroidal_cover follows)
+//!   euc_corpus  as euc; Spec demands yes
+//!   eucinv      IN k sym ren_1 … ren_k dual     OUT one class per variant (panic = `panic`)
+//!   euccov      IN sym m cover_1 … cover_m      OUT class(sym) class(cover_1) … class(cover_m)
+//!   ograph      IN sym                          OUT nl label… ne v w …          | PANIC
+//!
+//! Universe: the 3D universe of C15 (`d3gen`), covers with ≤ 2 (quick) / 3 (thorough) sheets,
+//! the corpus (thorough: every corpus input 3 times — `simplify` iterates a HashSet, §5.9).
+use rust_dsymbols::covers::covers;
+use rust_dsymbols::delaney3d::{orbifold_graph, pseudo_toroidal_cover};
+use rust_dsymbols::euclidicity::{is_euclidean, Euclidean};
+use std::panic::{catch_unwind, AssertUnwindSafe};
+use verif_harness::d3gen::{classes, corpus, symbols_3d};
+use verif_harness::dsgen::{random_perm1, Tab};
+use verif_harness::{Ctx, Rng};
+
+fn verdict(t: &Tab) -> (String, String) {
+    match is_euclidean(&t.to_partial_dsym()) {
+        Euclidean::Yes => ("yes".to_string(), "-".to_string()),
+        Euclidean::No(s) => ("no".to_string(), s.replace(' ', "_")),
+        Euclidean::Maybe(s, _) => ("maybe".to_string(), s.replace(' ', "_")),
     }
-    let cs = classes(3, 5);
-    eprintln!("3D n=5 classes={} t={:?}", cs.len(), t0.elapsed());
-    let mut cnt = 0;
-    for t in &cs { cnt += symbols_3d(t).len(); }
-    eprintln!("3D n=5 syms={} t={:?}", cnt, t0.elapsed());
+}
+
+fn class_of(t: &Tab) -> String {
+    match catch_unwind(AssertUnwindSafe(|| verdict(t).0)) {
+        Ok(c) => c,
+        Err(_) => "panic".to_string(),
+    }
+}
+
+fn euc(ctx: &mut Ctx, op: &str, s: &Tab, deep: bool, rep: usize, extra: &str) {
+    if !ctx.peek_mine() {
+        ctx.skip();
+        return;
+    }
+    let cls = class_of(s);
+    let tag = format!("{}size={} class={} {}", if cls != "no" { "nt " } else { "" }, s.size, cls, extra);
+    ctx.case(
+        op,
+        &tag,
+        || format!("{} {} {}", if deep { 1 } else { 0 }, rep, s.enc()),
+        || {
+            let (c, r) = verdict(s);
+            if c == "yes" {
+                match pseudo_toroidal_cover(&s.to_partial_dsym()) {
+                    Some(cov) => format!("{} {} 1 {}", c, r, Tab::from_dsym(&cov).enc()),
+                    None => format!("{} {} 0", c, r),
+                }
+            } else {
+                format!("{} {}", c, r)
+            }
+        },
+    );
+}
+
+fn variants(s: &Tab, rng: &mut Rng, k: usize) -> Vec<Tab> {
+    let mut vs = vec![s.clone()];
+    for _ in 0..k {
+        vs.push(s.renumbered(&random_perm1(rng, s.size)));
+    }
+    vs.push(s.dual());
+    vs
+}
+
+fn eucinv(ctx: &mut Ctx, vs: &[Tab], extra: &str) {
+    let k = vs.len() - 2;
+    let tag = format!("nt size={} variants={} {}", vs[0].size, vs.len(), extra);
+    ctx.case(
+        "eucinv",
+        &tag,
+        || format!("{} {}", k, vs.iter().map(|t| t.enc()).collect::<Vec<_>>().join(" ")),
+        || vs.iter().map(class_of).collect::<Vec<_>>().join(" "),
+    );
+}
+
+fn euccov(ctx: &mut Ctx, s: &Tab, sheets: usize, extra: &str) {
+    if !ctx.peek_mine() {
+        ctx.skip();
+        return;
+    }
+    // the covers are inputs here (their construction is property C05's subject)
+    let covs: Vec<Tab> = match catch_unwind(AssertUnwindSafe(|| {
+        covers(&s.to_partial_dsym(), sheets).iter().map(Tab::from_dsym).collect::<Vec<_>>()
+    })) {
+        Ok(c) => c,
+        Err(_) => {
+            ctx.skip();
+            return;
+        }
+    };
+    // the first entry of `covers` is the one-sheeted cover (the symbol itself): kept, it is a
+    // renumbering-free repeat and costs little
+    let tag = format!("nt size={} covers={} {}", s.size, covs.len(), extra);
+    ctx.case(
+        "euccov",
+        &tag,
+        || format!("{} {} {}", s.enc(), covs.len(), covs.iter().map(|t| t.enc()).collect::<Vec<_>>().join(" ")),
+        || {
+            let mut out = vec![class_of(s)];
+            out.extend(covs.iter().map(class_of));
+            out.join(" ")
+        },
+    );
+}
+
+fn ograph(ctx: &mut Ctx, s: &Tab, extra: &str) {
+    let tag = format!("size={} {}", s.size, extra);
+    ctx.case("ograph", &tag, || s.enc(), || {
+        let (labels, edges) = orbifold_graph(&s.to_partial_dsym());
+        let mut out = vec![labels.len().to_string()];
+        out.extend(labels);
+        out.push(edges.len().to_string());
+        for (v, w) in edges {
+            out.push(v.to_string());
+            out.push(w.to_string());
+        }
+        out.join(" ")
+    });
+}
+
+fn main() {
+    let mut ctx = Ctx::from_args();
+    let th = ctx.thorough();
+    let mut rng = ctx.rng(17);
+    let sheets = if th { 3 } else { 2 };
+
+    // (1) corpus: yes expected; thorough: three runs of every input
+    let reps = if th { 3 } else { 1 };
+    for s in corpus() {
+        for rep in 0..reps {
+            euc(&mut ctx, "euc_corpus", &s, true, rep, "corpus");
+        }
+        ograph(&mut ctx, &s, "corpus");
+        let vs = variants(&s, &mut rng, 3);
+        eucinv(&mut ctx, &vs, "corpus");
+        euccov(&mut ctx, &s, 2, "corpus");
+        if th {
+            for (k, v) in vs[1..].iter().enumerate() {
+                euc(&mut ctx, "euc_corpus", v, k == 0, 0, "corpus-variant");
+            }
+        }
+    }
+
+    // (2) the 3D universe: exhaustive for n ≤ 3 (quick) / n ≤ 4 (thorough); beyond, every
+    //     `stride`-th symbol of the next size at a seeded offset
+    let nfull = if th { 4 } else { 3 };
+    let nren = if th { 3 } else { 1 };
+    let stride = if th { 3 } else { 6 };
+    let offset = rng.below(stride);
+    let mut serial = 0usize;
+    for n in 1..=nfull + 1 {
+        for t in &classes(3, n) {
+            for s in symbols_3d(t) {
+                serial += 1;
+                let exhaustive = n <= nfull;
+                if !(exhaustive || serial % stride == offset) {
+                    continue;
+                }
+                let extra = if exhaustive { "exhaustive" } else { "sampled" };
+                euc(&mut ctx, "euc", &s, th || n <= 2, 0, extra);
+                ograph(&mut ctx, &s, extra);
+                let vs = variants(&s, &mut rng, nren);
+                eucinv(&mut ctx, &vs, extra);
+                if exhaustive || th {
+                    euccov(&mut ctx, &s, if n <= 4 { sheets } else { 2 }, extra);
+                }
+            }
+        }
+    }
+    ctx.finish();
 }
